@@ -50,7 +50,7 @@ fn engine_for(prop: &str) -> Box<dyn Engine> {
         "C06" => Box::new(qeng::QueryEngine {
             prop: "C06",
             suite: qeng::c06_suite,
-            rule: "every expression tree of depth 1 over {+,-,*,/,%} with leaves = 8 integer columns at the edges of u8/u8+offset/u16/u32/i64 (two nullable) and 9 constants, depth 2 over a reduced leaf set, unary minus; each as a projection, and depth-1 expressions also as aggregate argument and filter operand; SUM / AVG / expressions over SUM for 6 value multisets (overflow inside a partition, only when merging, only in a prefix, cancellation, negative) x all splits of 6 rows into <= 3 partitions x grouped / ungrouped; oracle: i128 reference arithmetic - if every row fits the cells must be equal, if any non-NULL row overflows or divides by zero the call must return Err(Overflow), NULL operand gives NULL. Non-trivial: query returns rows or the overflow error; distinct by query text.",
+            rule: "every expression tree of depth 1 over {+,-,*,/,%} with leaves = 9 integer columns at the edges of u8/u8+offset/u16/u32/i64 (two nullable; one holding i64::MIN itself) and 10 constants, depth 2 over a reduced leaf set, unary minus; each as a projection, and depth-1 expressions also as aggregate argument and filter operand; SUM / AVG / expressions over SUM for 6 value multisets (overflow inside a partition, only when merging, only in a prefix, cancellation, negative) x all splits of 6 rows into <= 3 partitions x grouped / ungrouped; oracle: i128 reference arithmetic - if every row fits the cells must be equal, if any non-NULL row overflows or divides by zero the call must return Err(Overflow), NULL operand gives NULL. Non-trivial: query returns rows or the overflow error; distinct by query text.",
             assumptions: &["a SUM whose total fits but which overflows for some summation order may also report Overflow", "queries the engine declines with TypeError / NotImplemented are counted, not judged"],
         }),
         _ => {
